@@ -139,8 +139,8 @@ MUTANTS = [
       [(SUB, "        parser = cls(tokenizer, verbose=verbose, py_version=py_version)", "        parser = cls(tokenizer, verbose=verbose)")], mention="Z1"),
     # ------------------------------------------------------------------ C13
     M("c13-module-level-cache", "C13",
-      [(SUB, "    def ensure_real(self, number: TokenInfo) -> float | int:\n        value = ast.literal_eval(number.string)",
-        "    def ensure_real(self, number: TokenInfo) -> float | int:\n        EXPR_NAME_MAPPING[number.string] = \"seen\"\n        value = ast.literal_eval(number.string)")],
+      [(SUB, "    def ensure_real(self, number: TokenInfo) -> float | int:\n        value = self.literal_value(number)",
+        "    def ensure_real(self, number: TokenInfo) -> float | int:\n        EXPR_NAME_MAPPING[number.string] = \"seen\"\n        value = self.literal_value(number)")],
       mention="U1"),
     M("c13-class-level-mutable", "C13",
       [(TKR, "    _tokens: list[TokenInfo]\n", "    _tokens: list[TokenInfo] = []\n")], mention="U2"),
